@@ -40,8 +40,11 @@ class Sock(env.FakeSocket):
     if i >= self.maxcalls:
       # beyond the scripted bound: accept everything (quiescence)
       self.accepted.append(data); return len(data)
-    code = ctx.int('%sout%d' % (self.tag, i), 0, 2)
+    code = ctx.int('%sout%d' % (self.tag, i), 0, 3 if self.coarse else 2)
     if code == 1: raise OSError(errno.EAGAIN, 'would block')
+    if self.coarse and code == 3:        # (coarse alphabet) a fatal error - also while the other connection has data backed up
+      self.fatal = True
+      raise OSError(errno.ECONNRESET, 'reset')
     if self.coarse:
       # coarse outcome alphabet (two-connection obligation): everything / EAGAIN / a short write of half the bytes
       k = len(data) if code == 0 else len(data) // 2
